@@ -160,7 +160,7 @@ func TestReal(t *testing.T) {
 			fmt.Printf("-- %s: %d err=%q%s\n   %q\n", s.name, a.Status, a.Err, h.String(), clip(string(a.Body), 900))
 		}
 		for j, m := range []string{"file", "pipe"} {
-			for _, d := range compare(as[0], as[j+1]) {
+			for _, d := range compare(as[0], as[j+1], bodyNote(c.Req.Body)) {
 				fmt.Printf("   REAL-DIFF %s: %s\n", m, d.sig)
 			}
 		}
